@@ -49,6 +49,7 @@ type Case struct {
 	Twin      string         `json:"twin,omitempty"` // a near-identical path handed to the library right before the case's own
 	DocKind   string         `json:"doc_kind,omitempty"`
 	Prefix    []PrefixCall   `json:"prefix,omitempty"` // Parse calls made in the process right before the case (replayed first)
+	Before    []*Case        `json:"before,omitempty"` // the cases the process ran right before this one (replayed first, outcomes ignored)
 	Note      string         `json:"violation,omitempty"`
 	Expected  string         `json:"expected,omitempty"`
 	Got       string         `json:"got,omitempty"`
@@ -478,9 +479,64 @@ func (c *Case) Restore() {
 	}
 }
 
+// recentCases are the last cases this process ran (whole cases: path, document, mode). A defect
+// that leaves state behind in an evaluation (not in Parse) makes a LATER case fail; that case
+// alone passes in a fresh process. The first failing case of a process is therefore also saved
+// with the cases before it, and the driver falls back to that file when the shrunk case does
+// not reproduce on its own.
+var recentCases []*Case
+
+const recentCasesMax = 64
+
+var firstFailureSaved bool
+
+func noteCase(c *Case) {
+	recentCases = append(recentCases, c)
+	if len(recentCases) > recentCasesMax {
+		recentCases = append([]*Case(nil), recentCases[len(recentCases)-recentCasesMax:]...)
+	}
+}
+
+// saveFirstFailure writes the first failing case of the process with its history.
+func saveFirstFailure(c *Case, msg string, before []*Case, prefix []PrefixCall) {
+	if firstFailureSaved || strings.Contains(msg, "harness:") {
+		return
+	}
+	firstFailureSaved = true
+	p := os.Getenv("VERIF_FAIL_OUT")
+	if p == "" {
+		return
+	}
+	cc := *c
+	cc.Note = msg
+	if len(cc.Prefix) == 0 {
+		cc.Prefix = prefix
+	}
+	for _, b := range before {
+		bb := *b
+		bb.Before, bb.Prefix = nil, nil
+		if !utf8.ValidString(bb.Path) {
+			bb.PathRaw = []byte(bb.Path)
+		}
+		cc.Before = append(cc.Before, &bb)
+	}
+	if !utf8.ValidString(cc.Path) {
+		cc.PathRaw = []byte(cc.Path)
+	}
+	if b, err := json.MarshalIndent(&cc, "", " "); err == nil {
+		_ = os.WriteFile(p+".first", b, 0o644)
+	}
+}
+
 // RunCase runs the registered check of the case.
 func RunCase(c *Case, st *Stats) string {
 	c.Restore()
+	for _, b := range c.Before {
+		b.Restore()
+		if fn, ok := replayers[b.Check]; ok {
+			_ = safeRun(fn, b, NewStats(b.Property, b.Check, ""))
+		}
+	}
 	replayPrefix(c.Prefix)
 	fn, ok := replayers[c.Check]
 	if !ok {
@@ -568,12 +624,17 @@ func checkRapid(t *testing.T, property, check, rule string, draw func(rt *rapid.
 		st.Case()
 		begin := time.Now()
 		before := append([]PrefixCall(nil), recentCalls...)
+		casesBefore := append([]*Case(nil), recentCases...)
 		enterCase(c)
 		msg := safeRun(fn, c, st)
 		leaveCase()
 		if msg != "" && len(c.Prefix) == 0 {
 			c.Prefix = before
 		}
+		if msg != "" {
+			saveFirstFailure(c, msg, casesBefore, before)
+		}
+		noteCase(c)
 		if d := time.Since(begin); d > 2*time.Second {
 			st.Class("slow-case(>2s)")
 			fmt.Fprintf(os.Stderr, "SLOW-CASE %s %.1fs path=%q doc=%s\n", check, d.Seconds(), c.Path, c.docPreview())
